@@ -100,6 +100,12 @@ func c14TCPJobs(tier string) []string {
 			add(fmt.Sprintf("or=swc,devs=ko,mss=100,rcvbuf=200,pd=12x100,read=eager,w=10,iss=%d,piss=%d,b=1", uint32(edge-dist-7), uint32(edge-dist)), 1)
 		}
 	}
+	// loss recovery with the stack's sequence numbers in the upper half of the space (and just
+	// below either wrap): duplicate-ACK counting and the NewReno recover marker compare
+	// against SND.UNA there, long before anything wraps
+	for _, iss := range []uint32{1<<31 + 5, 3 << 30, 1<<32 - 2000, 1<<31 - 2000, 1<<32 - 300} {
+		add(fmt.Sprintf("or=swcr,devs=lhk,mss=100,w=6x100,iss=%d,b=1", iss), 1)
+	}
 	return jobs
 }
 
